@@ -212,13 +212,14 @@ func init() {
 	}
 	commands["art-extract"] = func(args []string) {
 		var c struct {
-			Depth uint32 `json:"depth"`
-			Batch uint32 `json:"batch"`
-			CLI   string `json:"cli"`
-			Dir   string `json:"dir"`
-			Keep  string `json:"keep"`
-			Prev  string `json:"prev"`
-			Reps  int    `json:"reps"` // library path only: this many further extractions in the SAME process, one record each
+			Depth uint32   `json:"depth"`
+			Batch uint32   `json:"batch"`
+			CLI   string   `json:"cli"`
+			Dir   string   `json:"dir"`
+			Keep  string   `json:"keep"`
+			Prev  string   `json:"prev"`
+			Reps  int      `json:"reps"` // library path only: this many further extractions in the SAME process, one record each
+			Env   []string `json:"env"`  // CLI path: extra environment of the command (the deployment's MTB_MODE etc.); extraction takes depth and batch, nothing else
 		}
 		loadCases(args, &c)
 		defer func() {
@@ -245,7 +246,12 @@ func init() {
 			if old, e0 := os.ReadFile(c.Prev); e0 == nil {
 				os.WriteFile(out, append(old, bytes.Repeat([]byte("-- stale tail\n"), 2000)...), 0o644)
 			}
-			msg, e := exec.Command(c.CLI, "extract-circuit", "--output", out, "--tree-depth", fmt.Sprint(c.Depth), "--batch-size", fmt.Sprint(c.Batch)).CombinedOutput()
+			xc := exec.Command(c.CLI, "extract-circuit", "--output", out, "--tree-depth", fmt.Sprint(c.Depth), "--batch-size", fmt.Sprint(c.Batch))
+			xc.Env = append(os.Environ(), c.Env...)
+			if len(c.Env) > 0 {
+				rec["via"] = "cli " + strings.Join(c.Env, " ")
+			}
+			msg, e := xc.CombinedOutput()
 			if e != nil {
 				err = fmt.Errorf("extract-circuit: %v: %s", e, firstLine(string(msg)))
 			} else {
